@@ -12,19 +12,21 @@
 (* PopMode = "identity" : forget the key only if it still holds the entry  *)
 (*                        that was written (the repaired code)             *)
 (*         = "bykey"    : forget the key unconditionally (the defect)      *)
-(*         = "before"   : forget before writing (C08's mutant)             *)
+(*         = "before"   : forget before writing (C08's mutant: with Faults  *)
+(*                        a failed write loses the command)                *)
 (* TLC checks the three invariants of C09 at quiescence over every         *)
 (* interleaving and emits every complete schedule for replay on the code.  *)
 (***************************************************************************)
 EXTENDS Integers, Sequences, FiniteSets, TLC, Json
 
 CONSTANTS Keys, Senders, PopMode, MaxSends,
-          DirectSenders      \* senders addressing a node that is NOT sleeping: their send suspends in its own write
+          DirectSenders,     \* senders addressing a node that is NOT sleeping: their send suspends in its own write
+          Faults             \* TRUE: the pending write of the flush may fail (C08 under concurrency)
 
 VARIABLES buf,      \* parked commands: key -> value
           snap,     \* listener: entries still to write (set of <<key, value>>)
           cur,      \* listener: entry whose write is pending
-          lpc,      \* "idle" | "writing" | "done" | "final"
+          lpc,      \* "idle" | "writing" | "done" | "failed" | "final"
           todo,     \* sender -> number of sends still to make
           skey,     \* sender -> key it sends to (fixed per run)
           wire,     \* writes handed to the transport, in call order
@@ -83,9 +85,18 @@ LStep == /\ lpc = "writing"
          /\ hist' = Append(hist, "LStep")
          /\ UNCHANGED <<todo, skey, sent, nsent, init0, dpc, dval>>
 
+(* the pending write fails (C08): the flush ends there and reports the error; the line did not reach the *)
+(* node, so it is no write; what was not written stays parked.  At most once per run: the listener does  *)
+(* not wake again before the final wake.                                                                 *)
+LFail == /\ Faults /\ lpc = "writing"
+         /\ wire' = SelectSeq(wire, LAMBDA e : e # cur)
+         /\ snap' = {} /\ cur' = None /\ lpc' = "failed"
+         /\ hist' = Append(hist, "LFail")
+         /\ UNCHANGED <<buf, todo, skey, sent, nsent, init0, dpc, dval>>
+
 (* send(set command) for the sleeping node: parked in place, returns without suspending *)
 SSend(s) == /\ todo[s] > 0
-            /\ lpc \in {"idle", "writing", "done"}
+            /\ lpc \in {"idle", "writing", "done", "failed"}
             /\ nsent' = nsent + 1
             /\ buf' = Upd(buf, skey[s], nsent + 1)
             /\ sent' = Append(sent, <<skey[s], nsent + 1>>)
@@ -95,7 +106,7 @@ SSend(s) == /\ todo[s] > 0
 
 (* send(set command) for a node that is not sleeping: the line is handed to the transport at once *)
 (* (its key - the sender name - is never parked), the call returns when the write completes            *)
-SBegin(d) == /\ dpc[d] = "ready" /\ lpc \in {"idle", "writing", "done"}
+SBegin(d) == /\ dpc[d] = "ready" /\ lpc \in {"idle", "writing", "done", "failed"}
              /\ nsent' = nsent + 1
              /\ dval' = [dval EXCEPT ![d] = nsent + 1]
              /\ wire' = Append(wire, <<d, nsent + 1>>)
@@ -109,7 +120,7 @@ SEnd(d) == /\ dpc[d] = "writing"
            /\ UNCHANGED <<buf, snap, cur, lpc, todo, skey, wire, nsent, init0, dval>>
 
 (* everybody has finished; the node wakes once more (sequential flush) *)
-FinalWake == /\ lpc = "done" /\ \A s \in Senders : todo[s] = 0 /\ \A d \in DirectSenders : dpc[d] = "done"
+FinalWake == /\ lpc \in {"done", "failed"} /\ \A s \in Senders : todo[s] = 0 /\ \A d \in DirectSenders : dpc[d] = "done"
              /\ \E order \in {q \in [1..Cardinality(DOMAIN buf) -> Entries(buf)] :
                                  \A e \in Entries(buf) : \E i \in DOMAIN q : q[i] = e} :
                    wire' = wire \o order
@@ -118,7 +129,7 @@ FinalWake == /\ lpc = "done" /\ \A s \in Senders : todo[s] = 0 /\ \A d \in Direc
              /\ hist' = Append(hist, "FinalWake")
              /\ UNCHANGED <<snap, cur, todo, skey, sent, nsent, init0, dpc, dval>>
 
-Next == LWake \/ LStep \/ FinalWake \/ (\E s \in Senders : SSend(s)) \/ (\E d \in DirectSenders : SBegin(d) \/ SEnd(d))
+Next == LWake \/ LStep \/ LFail \/ FinalWake \/ (\E s \in Senders : SSend(s)) \/ (\E d \in DirectSenders : SBegin(d) \/ SEnd(d))
 Spec == Init /\ [][Next]_vars
 FairSpec == Spec /\ WF_vars(Next)
 
